@@ -279,43 +279,76 @@ func diffLine(a, b []byte) string {
 	return "equal"
 }
 
-// c08Class gives the class of a failure: a known syntactic shape of the INPUT when the input
-// has it (most specific first), else kind + formatter.
+// c08Kind normalises a failure kind (comment moves are "comment-lost" or "comment-reattached").
+func c08Kind(kind string) string {
+	if strings.HasPrefix(kind, "comment-moved:lost") {
+		return "comment-lost"
+	} else if strings.HasPrefix(kind, "comment-moved:") {
+		return "comment-reattached"
+	}
+	return kind
+}
+
+// c08Class gives the class of a failure.  A known syntactic shape of the INPUT is named only when
+// the input has it AND removing exactly that shape cures this failure kind (c08_shapes.go);
+// otherwise the class is the strict "<kind>-<formatter>".  Comment LOSS on an unmutated
+// repository file is never attributed to a shape.
 func c08Class(kind string, m fmtMode, src []byte, origin string) string {
 	v := "v1"
 	if m.v2 {
 		v = "v2"
 	}
-	if strings.HasPrefix(kind, "comment-moved:lost") {
-		kind = "comment-lost"
-	} else if strings.HasPrefix(kind, "comment-moved:") {
-		kind = "comment-reattached"
-	}
+	kind = c08Kind(kind)
+	strict := kind + "-" + v
 	f0, err := c08Parse(src)
 	if err != nil {
-		return kind + "-" + v
+		return strict
+	}
+	derived := strings.HasPrefix(origin, "mutant(") || strings.Contains(origin, "generated(seed") || strings.HasPrefix(origin, c08Irregular)
+	corpusLoss := kind == "comment-lost" && !derived // an unmutated repository file loses a comment
+	var hang *c08Shape
+	if m.v2 && kind == "not-idempotent" {
+		if hang = c08HangingCloseShape(f0, src); hang != nil && c08Cured(src, *hang, kind, m) {
+			return "v2-" + hang.name
+		}
+	}
+	if m.v2 {
+		shapes := c08TokenShapes(src)
+		for _, sh := range shapes {
+			if strings.HasPrefix(sh.name, "simplify-") && !m.simplify {
+				continue
+			}
+			if corpusLoss && sh.name != "comment-between-colon-and-value" {
+				continue // the only shape under which repository files are known to lose a comment
+			}
+			if c08Cured(src, sh, kind, m) {
+				return "v2-" + sh.name + ":" + kind
+			}
+		}
+		if corpusLoss {
+			return strict
+		}
+		if len(shapes) > 1 || len(shapes) == 1 && hang != nil { // several shapes together
+			var all c08Shape
+			all.name = shapes[0].name
+			for _, sh := range shapes {
+				all.edits = append(all.edits, sh.edits...)
+			}
+			if hang != nil {
+				all.edits = append(all.edits, hang.edits...)
+			}
+			if c08Cured(src, all, kind, m) {
+				return "v2-" + all.name + ":" + kind
+			}
+		}
 	}
 	switch {
-	case !m.v2 && hasUnaryMerge(f0) && (kind == "output-does-not-parse" || kind == "tree-changed" || kind == "second-fmt-fails"):
-		return "v1-unary-op-merges-with-operand"
-	case m.v2 && kind == "not-idempotent" && hasHangingClose(f0):
-		return "v2-multiline-elements-closing-bracket-on-last-element-line"
-	case m.v2 && hasOpenBraceComment(f0):
-		return "v2-comment-after-open-brace:" + kind
-	case hasInteriorComment(f0) || strings.HasPrefix(origin, c08Irregular):
-		return v + "-interior-comment:" + kind
 	case m.simplify && kind == "tree-changed" && hasQuotedLabelWithIdentSibling(f0):
 		return v + "-simplify-unquotes-label-with-identifier-sibling"
 	case m.simplify && kind == "tree-changed" && hasAnyPatternWithAttr(f0):
 		return v + "-simplify-any-pattern-with-attribute-becomes-ellipsis"
-	case m.simplify && (kind == "tree-changed" || kind == "comment-lost" || kind == "comment-reattached") && hasAnyPatternField(f0):
-		return v + "-simplify-ellipsis-moves-or-drops-comments"
-	case strings.Contains(origin, "generated(seed"):
-		return v + "-generated-layout:" + kind
-	case strings.HasPrefix(origin, "mutant("):
-		return v + "-" + origin[:strings.Index(origin, ")")+1] + ":" + kind
 	}
-	return kind + "-" + v
+	return strict
 }
 
 // hasOpenBraceComment: a `//` comment on the line of an opening `{`, directly after it.
